@@ -115,7 +115,7 @@ type gen struct {
 	s   *Scenario
 	seq int
 	// per logical file
-	pending    []int  // index of a line whose first part is written, or -1
+	pending    []int // index of a line whose first part is written, or -1
 	openGroup  []map[string]bool
 	fileStream [][]string
 }
